@@ -71,6 +71,7 @@ func raceViolation(prop, report string) *props.Violation {
 		// the two access stacks are the first two paragraphs
 		paras := strings.Split(blk, "\n\n")
 		var sites []string
+		var writes []bool
 		ok, accesses := 0, 0
 		for _, para := range paras {
 			lines := strings.Split(strings.TrimSpace(para), "\n")
@@ -92,12 +93,17 @@ func raceViolation(prop, report string) *props.Violation {
 				if strings.HasPrefix(fn, "github.com/philpearl/plenc") && !strings.Contains(file, "/verif_on.go") {
 					ok++
 					sites = append(sites, strings.TrimSuffix(strings.TrimPrefix(fn, "github.com/philpearl/plenc"), "()")+" "+shortFile(file))
+					writes = append(writes, strings.Contains(strings.ToLower(h), "write"))
 				}
 				break
 			}
 			if accesses == 2 {
 				break
 			}
+		}
+		if ok >= 2 && !raceBelongsTo(prop, sites, writes) {
+			otherPropertyRaces++
+			continue
 		}
 		if ok >= 2 {
 			first := strings.SplitN(strings.TrimSpace(blk), "\n", 2)[0]
@@ -113,4 +119,35 @@ func shortFile(f string) string {
 		f = f[:i]
 	}
 	return strings.TrimPrefix(f, "/repo/")
+}
+
+// otherPropertyRaces counts reports that are real plenc races but belong to
+// another property's statement (reported by that property's check).
+var otherPropertyRaces int
+
+// raceBelongsTo decides whether a plenc race is a violation of the property
+// under test. C07 (no data races, full stop): any. C19: a race on the interning
+// machinery. C11 (Marshal does not modify the value): a write on the encode
+// path (Append / Size / Omit / Marshal) racing with anything.
+func raceBelongsTo(prop string, sites []string, writes []bool) bool {
+	switch prop {
+	case "C19":
+		for _, s := range sites {
+			if strings.Contains(s, "Intern") || strings.Contains(s, "intern") {
+				return true
+			}
+		}
+		return false
+	case "C11":
+		for i, s := range sites {
+			fn := strings.Fields(s)[0]
+			if i < len(writes) && writes[i] && (strings.HasSuffix(fn, ".append") || strings.HasSuffix(fn, ".Append") || strings.HasSuffix(fn, ".size") || strings.HasSuffix(fn, ".Size") || strings.HasSuffix(fn, ".Omit") || strings.HasSuffix(fn, ".Marshal")) {
+				return true
+			}
+		}
+		return false
+	case "C10":
+		return false
+	}
+	return true
 }
